@@ -957,6 +957,7 @@ type MacroNode struct {
 	defaults map[string]Node
 	body     []Node
 	line     int
+	siblings []*MacroNode // All macros defined at the top level of the same template (set once by the parser)
 }
 
 func (n *MacroNode) Type() NodeType {
@@ -1105,6 +1106,12 @@ func (n *MacroNode) CallMacro(w io.Writer, ctx *RenderContext, args ...interface
 
 	// Ensure context is released even in error paths
 	defer macroCtx.Release()
+
+	// The macros of the defining template can call each other by name however
+	// this macro was reached (directly, through import or through from-import)
+	for _, sibling := range n.siblings {
+		macroCtx.macros[sibling.name] = sibling
+	}
 
 	// Set the parameters
 	for i, param := range n.params {
